@@ -222,14 +222,56 @@ def run(res):
             ec, txt = cli.run(args, w.dir)
             nrun += 1
             compare(res, "real chunk size d=%d %s" % (d, cmd), cmd, {}, nals2, data, ec, {key: w.read(f) for key, f in outs.items()}, parse_model(m), {"chunk_size": None, "input": "file"})
+    # ---- bytes -> NAL batches: hevc_parser's chunked reader against Splitter.v, the model the chunk-invariance
+    # theorem (C05_reader_chunk_invariant) is about: arbitrary byte strings over a start-code-heavy alphabet with
+    # every small chunk size, the streams of this run, and streams above 100 kB through process_file at the real size
+    sp = []
+    alpha = [0, 0, 0, 0, 1, 1, 2, 3, 0x42, 0x80, 0xFF]
+    for k in range(400 if res.tier == "quick" else 6000):
+        n = r.choice([0, 1, 2, 3, 4, 5, 7, 12, 20, 60, 150, 400])
+        b = bytearray(r.choice(alpha) for _ in range(n))
+        for _ in range(r.choice([0, 1, 2, 5])):
+            if n >= 4:
+                pp = r.randrange(0, n - 3)
+                b[pp : pp + 3] = b"\x00\x00\x01"
+        sp.append((bytes(b), r.choice([1, 2, 3, 4, 5, 7, 8, 16, 33, 100, 1000]), False))
+    for c in cases[: (30 if res.tier == "quick" else 300)]:
+        sp.append((c[4], r.choice([64, 1000, 4096]), False))
+    for d in ((-3, 0, 2) if res.tier == "quick" else range(-5, 6)):
+        frames = S.gen_frames(r, 3, el=True, rpu_pool=pool)
+        nn = S.flatten(frames)
+        big = [S.SNal(H.sei_nal([(200, H.filler(r, sz))])) for sz in (99900 + d, 100010 - d, 60000)]
+        sp.append((S.stream_bytes(r, nn[:3] + [big[0]] + nn[3:6] + [big[1], big[2]] + nn[6:], sc=r.choice(["four", "mixed"]), tz_prob=0.3), 100000, True))
+    impl = C.run_sharded(C.dvh, ["hsplit %d %s%s" % (cs, b.hex() or "-", " file" if f else "") for b, cs, f in sp])
+    mod = C.run_sharded(C.model, ["splitc %d %s" % (cs, b.hex() or "-") for b, cs, f in sp])
+    whole = C.run_sharded(C.model, ["split %s" % (b.hex() or "-") for b, cs, f in sp])
+    sp_stats = {"cases": len(sp), "agree": 0, "empty_nal": 0, "nals": 0, "batches": 0}
+    for (b, cs, f), oi, om, ow in zip(sp, impl, mod, whole):
+        rp = {"op": "hsplit", "chunk_size": cs, "through_file": f, "stream_hex": b.hex() if len(b) < 4000 else b[:2000].hex() + "...", "impl": oi[:300], "model": om[:300]}
+        flat = lambda o: [x for bt in o[3:].split("|") for x in bt.split(",") if x not in ("-", "")] if o.startswith("ok ") and o != "ok -" else []
+        if not om.startswith("ok") or not ow.startswith("ok"):
+            raise RuntimeError("splitter model failure: %s / %s" % (om[:80], ow[:80]))
+        if flat(om) != flat(ow):
+            res.violation("model: chunked split differs from the whole split (chunk size %d) - the theorem's statement fails on this input" % cs, rp)
+            continue
+        if "." in flat(ow) and not oi.startswith("ok"):
+            sp_stats["empty_nal"] += 1          # an empty NAL: hevc_parser reads its first byte (out of the model: the commands report an error)
+            continue
+        if oi != om:
+            res.violation("bytes -> NAL batches: hevc_parser with chunk size %d %s and the model disagree: impl %s model %s" % (cs, "through process_file" if f else "through a cursor", oi[:120], om[:120]), rp)
+            continue
+        sp_stats["agree"] += 1
+        sp_stats["nals"] += len(flat(om))
+        sp_stats["batches"] += om.count("|") + 1
     res.coverage.update({
+        "splitter_correspondence": sp_stats,
         "evaluations": nrun + len(lines),
         "distinct_nontrivial": len(cases),
-        "rule": "streams from access-unit templates ([AUD] [VPS SPS PPS] [prefix SEI]* slice+ [EL NALs]* [suffix SEI] RPU [EOS/EOB]; 1..14 frames; NAL sizes 3 B..4 kB; mixed 3/4-byte start codes; trailing zeros) x {convert, demux, demux --el-only, remove} x {-m 0..5, --crop, --discard, --start-code annex-b} x hook chunk sizes (divisors of 100000) x {file, piped stdin with random write fragmentation}; a sweep placing a start code at every offset -4..+4 around a chunk-size multiple; outputs re-split by an independent Annex-B splitter and compared as (type, payload) sequences with the Coq routing model (RPU payloads under -m through the model's conversion); distinct (stream, command, options) cases counted",
+        "rule": "streams from access-unit templates ([AUD] [VPS SPS PPS] [prefix SEI]* slice+ [EL NALs]* [suffix SEI] RPU [EOS/EOB]; 1..14 frames; NAL sizes 3 B..4 kB; mixed 3/4-byte start codes; trailing zeros) x {convert, demux, demux --el-only, remove} x {-m 0..5, --crop, --discard, --start-code annex-b} x hook chunk sizes (divisors of 100000) x {file, piped stdin with random write fragmentation}; a sweep placing a start code at every offset -4..+4 around a chunk-size multiple; outputs re-split by an independent Annex-B splitter and compared as (type, payload) sequences with the Coq routing model (RPU payloads under -m through the model's conversion); distinct (stream, command, options) cases counted; bytes -> NAL batches: hevc_parser's reader (parse_nals off) against the extracted Splitter.v on random byte strings over {00,01,02,03,..} with planted start codes and chunk sizes 1..1000, on the run's streams, and on streams above 100 kB through process_file at the real chunk size, batch by batch",
         "cli_runs": nrun, "exit_codes": dict(OUTCOMES),
         "samples": [{"cmd": c[1], "opts": c[2], "nals": len(c[3]), "bytes": len(c[4]), "chunk": c[5]} for c in cases[:4]],
     })
-    res.assumptions += ["slice-header / POC parsing by hevc_parser is an input of the model (frame attributes supplied by the generator, frame indexing validated against hevc_parser in the C07 check)", "start-code length of the very first NAL under --start-code annex-b is not compared (depends on chunking, see DESIGN.md)"]
+    res.assumptions += ["the reader returns full requests until the end of the input (schedule_ok in Splitter.v): true of File behind a BufReader whose capacity equals the request (100000), of a cursor, and of the stdin accumulation loop; a short read in the middle breaks the reader (C05_short_read_breaks_it)", "slice-header / POC parsing by hevc_parser is an input of the model (frame attributes supplied by the generator, frame indexing validated against hevc_parser in the C07 check)", "start-code length of the very first NAL under --start-code annex-b is not compared (depends on chunking, see DESIGN.md)"]
     C.conclude(res, broken)
 
 
